@@ -1055,8 +1055,8 @@ func vfC25Run(t *testing.T, cs vfC25Case, out *vfC25Out, isKnown func(string) bo
 			if brokerParked() {
 				// the parked goroutine holds the node's per-channel subscribe lock (a mutex): nothing that needs the lock may run now
 				switch s.Kind {
-				case vfC25Track, vfC25Untrack, vfC25Unsub, vfC25Close, vfC25Revoke, vfC25Epoch:
-					continue
+				case vfC25Track, vfC25Untrack, vfC25Unsub, vfC25Close, vfC25Revoke, vfC25Epoch, vfC25Adv:
+					continue // (no time advance either: dissolver jobs queued earlier take the same lock when their delay elapses)
 				case vfC25Publish:
 					if s.NewEp || s.EmptyEp {
 						continue
@@ -1298,7 +1298,9 @@ func vfC25Run(t *testing.T, cs vfC25Case, out *vfC25Out, isKnown func(string) bo
 				case 1:
 					w.node.SharedPollNotify([]SharedPollNotificationItem{{Channel: vfC25Chan, Key: vfC25Keys[s.Key]}})
 				case 2:
-					time.Sleep(interval)
+					if !brokerParked() {
+						time.Sleep(interval)
+					}
 				}
 				vfSettle()
 				if pollInFlight() {
@@ -1306,10 +1308,23 @@ func vfC25Run(t *testing.T, cs vfC25Case, out *vfC25Out, isKnown func(string) bo
 				}
 			case vfC25Release:
 				cands := w.Gates.AnyWaiting()
+				if brokerParked() {
+					// a track released now would block on the subscribe lock (a mutex) held by the parked one
+					var keep []string
+					for _, g := range cands {
+						if !strings.HasPrefix(g, "track:") {
+							keep = append(keep, g)
+						}
+					}
+					cands = keep
+				}
 				if w.broker.NumHeld() > 0 {
 					cands = append(cands, "held")
 				}
 				if len(cands) == 0 {
+					if brokerParked() {
+						continue
+					}
 					time.Sleep(600 * time.Millisecond)
 					vfSettle()
 					markInline()
